@@ -28,13 +28,16 @@ type Case struct {
 var prop = vlib.Prop[*Case]{
 	ID: "C09",
 	Rule: "case = reachable state (history of 1..8 transactions as in C01, over the plain universe or the choice universe) + a subset of the live intents re-submitted verbatim (same name, priority, content, input form) in one transaction; " +
-		"oracle = the recording device asks the same tree for every encoding: proto updates/deletes empty, JSON and JSON_IETF equal {}, XML empty for all 8 option combinations, response Update/Delete empty, INTENDED and CONFIG dumps identical before/after; " +
+		"a fifth of the cases also push every change through the real gnmiTarget (proto / JSON / JSON_IETF) to an in-process gNMI device, whose SetRequest for the re-application must be empty; oracle = the recording device asks the same tree for every encoding: proto updates/deletes empty, JSON and JSON_IETF equal {}, XML empty for all 8 option combinations, response Update/Delete empty, INTENDED and CONFIG dumps identical before/after; " +
 		"a quarter of the states are reached through a transaction that was applied and cancelled; precondition (else discarded and counted): the device holds the model merge on every path of the re-applied intents (a running mirror that disagrees with the device is data-server's own doing and no excuse); " +
 		"non-trivial = the re-submitted subset contains a fully shadowed or a partly shadowed (mixed) intent; distinct = distinct case JSON",
 	Gen: func(t *rapid.T) *Case {
 		uni := rapid.SampledFrom([]*vlib.Universe{vlib.UniPlainNA, vlib.UniPlainNA, vlib.UniChoiceNoList}).Draw(t, "universe")
 		o := vlib.HistGenOpts{Universe: uni, MinSteps: 1, MaxSteps: 8, WithInit: true, AllowOrphan: true}
 		c := &Case{Hist: vlib.GenHistCase(t, o)}
+		if rapid.IntRange(0, 4).Draw(t, "gnmi-device") == 2 {
+			c.Hist.GNMI = rapid.SampledFrom([]string{"proto", "json", "json_ietf"}).Draw(t, "gnmi-encoding")
+		}
 		if rapid.IntRange(0, 3).Draw(t, "cancelled-transaction") == 0 {
 			st := vlib.GenStep(t, o)
 			c.Cancelled = &st
@@ -51,12 +54,20 @@ func Exec(c *Case) (nontrivial bool, labels []string, fail *vlib.Failure) {
 	st := vlib.GetStats("C09")
 	ctx := context.Background()
 	env := vlib.MustEnv()
-	h, err := vlib.NewHistEnv(ctx, env, c.Hist, vlib.HistEnvOpts{})
+	var tee *vlib.GNMITee
+	opts := vlib.HistEnvOpts{}
+	if c.Hist.GNMI != "" {
+		opts.WrapTarget = vlib.GNMIWrap(ctx, env, c.Hist.GNMI, &tee)
+	}
+	h, err := vlib.NewHistEnv(ctx, env, c.Hist, opts)
 	if err != nil {
 		fmt.Fprintf(os.Stderr, "HARNESS-ERROR %v\n", err)
 		os.Exit(2)
 	}
 	defer h.DS.Stop()
+	if tee != nil {
+		defer tee.GDev.Stop()
+	}
 	for _, s := range c.Hist.Steps {
 		if res := h.RunStep(s); !res.OK {
 			st.Discard("prefix-step-refused")
@@ -155,6 +166,11 @@ func Exec(c *Case) (nontrivial bool, labels []string, fail *vlib.Failure) {
 		rend = vlib.RenderAll(ctx, src)
 	}
 	callsBefore := h.Dev.Calls()
+	gnmiBefore := 0
+	if tee != nil {
+		gnmiBefore = tee.GDev.Calls()
+		lab["real-gnmi-target-"+c.Hist.GNMI] = true
+	}
 	rsp, err := h.SetRequest("reapply", reqs, nil, false)
 	h.Dev.OnSet = nil
 	where := fmt.Sprintf("re-applying %v verbatim", names)
@@ -188,6 +204,12 @@ func Exec(c *Case) (nontrivial bool, labels []string, fail *vlib.Failure) {
 			if s := strings.TrimSpace(rend.XML[o]); s != "" {
 				return nontrivial, keys(lab), vlib.Failf("C09:xml-not-empty", "%s: XML change document (%s) is %s", where, o, s)
 			}
+		}
+	}
+	if tee != nil && tee.GDev.Calls() > gnmiBefore {
+		// what the real gnmiTarget put on the wire for the re-application: an empty gNMI set
+		if rec := tee.GDev.LastRecord(); rec != nil && (len(rec.Updates) > 0 || len(rec.Deletes) > 0 || len(rec.Anomalies) > 0) {
+			return nontrivial, keys(lab), vlib.Failf("C09:gnmi-set-not-empty:"+c.Hist.GNMI, "%s: the SetRequest of the real gnmiTarget (%s) carries %d updates, %d deletes, anomalies %v: %s", where, c.Hist.GNMI, len(rec.Updates), len(rec.Deletes), rec.Anomalies, vlib.JSON(rec))
 		}
 	}
 	intAfter, err2 := vlib.DumpIntended(ctx, env.Cache, h.DSName)
